@@ -89,7 +89,7 @@ static void lst_make_sequence(vp_rng_t* r, int mode, uint64_t idx, seq_t* s)
         case 6: name = "truncate-any"; n = (size_t)vp_rng_below(r, n + 1); break;
         case 7: name = "truncate-0-64"; n = (size_t)vp_rng_below(r, 65); break;
         case 8: name = "empty-datagram"; n = 0; break;
-        case 9: name = "random-bytes"; n = (size_t)vp_rng_below(r, 1501); vp_rng_fill(r, b, n); b[hdr < n ? hdr : 0] = 0x84; break;
+        case 9: name = "random-bytes"; n = (size_t)vp_rng_below(r, 1601); vp_rng_fill(r, b, n);   /* up to 100 bytes more than any receive buffer holds */ b[hdr < n ? hdr : 0] = 0x84; break;
         case 10: name = "bit-flips"; mutate_bytes(r, b, n, 1 + (int)vp_rng_below(r, 5)); break;
         default: name = "long-path-fills-datagram"; n = build_valid(r, mode, tscf, b, 0, 9, 1350, 0, 0, 0x3fc00000); break;
         }
@@ -114,7 +114,9 @@ static int lst_child(int mode, const seq_t* s)
     char* argv_u[] = { "acf-vss-listener", "-u", 0 };
     char* argv_r[] = { "acf-vss-listener", "lo", "aa:bb:cc:dd:ee:ff", 0 };
     listener_main(mode ? 2 : 3, mode ? argv_u : argv_r);
-    return EX_HARNESS;
+    /* the receive loop of main() ended: the listener gave up on a datagram instead of going on to the next one */
+    fprintf(stderr, "VP-TERMINATED: the listener's main() returned after datagram %d\n", g_cur_dgram);
+    return EX_TERMINATED;
 }
 #ifndef LST_FUZZ
 int main(void) { return lst_driver_main(); }
